@@ -4,6 +4,7 @@ import SmVerif.Model.Lookup
 import SmVerif.Model.V3Spec
 import SmVerif.Model.Paths
 import SmVerif.Model.DrvRam
+import SmVerif.Model.DrvName
 import SmVerif.Model.DrvAdjust
 import SmVerif.Model.DrvSv
 /-
@@ -176,6 +177,7 @@ def handle (toks : List String) : String :=
     else if op.startsWith "ram." then DrvRam.handleRam toks
     else if op.startsWith "sv." then DrvSv.handleSv toks
     else if op.startsWith "adj." then DrvAdjust.handleAdj toks
+    else if op.startsWith "name." then DrvName.handleName toks
     else if op.startsWith "bytes." then "*\tsafe\t1"
     else handleMisc toks
 
